@@ -261,13 +261,35 @@ def pattern_scenario(seed):
     n = rng.randint(3, 7)
     ids = rng.sample(range(1, 2 ** 31 - 1), n)
     kind = rng.choice(("lost_with_cancelled", "lost_with_cancelled", "close_cancels_sibling", "close_cancels_sibling",
-                       "lost_then_close"))
+                       "lost_then_close", "disconnect_window", "disconnect_window"))
     t0 = [round(rng.choice((0.0, 0.0, 0.01, 0.03)) * k, 4) for k in range(n)]
     actions = [[t0[k], "req", i, True] for k, i in enumerate(ids)]
     on_fire, behaviour, cuts, connect = {}, [], {}, ["accept"] * 12
     end = "heal"
     horizon = 3.0
-    if kind in ("lost_with_cancelled", "lost_then_close"):
+    if kind == "disconnect_window":
+        # disconnect() on a live connection with requests outstanding, and in the same reactor turn - before the
+        # transport has reported the loss - another request, a cancel, or close()
+        td = round(rng.uniform(0.2, 0.6), 4)
+        for i in ids:
+            behaviour.append([i, 0, ["never"] if rng.random() < 0.6 else ["delay", 1.0]])
+            behaviour.append([i, 1, ["now"]])
+            behaviour.append([i, 2, ["now"]])
+        late = ids[-1]
+        actions = [a for a in actions if a[2] != late]
+        actions.append([td, "disconnect"])
+        what = rng.choice(("req", "req", "close", "req_close", "cancel_req"))
+        if what in ("req", "req_close", "cancel_req"):
+            if what == "cancel_req":
+                actions.append([td, "cancel", ids[0]])
+            actions.append([td, "req", late, True])
+        else:
+            ids = ids[:-1]
+        if what in ("close", "req_close"):
+            actions.append([td, "close"])
+        if rng.random() < 0.3:
+            actions.append([round(td + rng.choice((0.0, 0.001, 0.3)), 4), "disconnect"])
+    elif kind in ("lost_with_cancelled", "lost_then_close"):
         # every request is written and unanswered; some are cancelled; then the connection goes away; after the
         # reconnect the survivors are answered
         cut_t = round(rng.uniform(0.3, 0.8), 4)
